@@ -9,6 +9,7 @@ from prover import Proof  # noqa: E402
 import tokenizer_proofs  # noqa: E402
 import output_proofs  # noqa: E402
 import outtext_proofs  # noqa: E402
+import nlguard_proofs  # noqa: E402
 NEED_OPTIONS = True
 MACRO_HEADERS = ['tokenizer_macros.h']   # proofs from output_proofs carry their own macro_headers
 IMPL, SPEC = 'contracts/C02/list.impl.cpp', 'contracts/C02/list.spec.c'
@@ -45,6 +46,7 @@ def _c19():
 
 PROOFS += output_proofs.select(['add_text_ascii', 'output_to_column'])   # K4: columns never move left, only blanks/tabs are written while advancing
 PROOFS += [outtext_proofs.iteration_proof()]   # K5: every chunk's text is written once, at or right of where the previous text ended
+PROOFS += nlguard_proofs.all_proofs()   # K6: a newline is deleted / crossed only if SafeToDeleteNl()
 PROOFS += _c19()   # K3: the fusion guard (PCF_FORCE_SPACE) overrides Remove
 EXPLANATION = ('Kernel of C02. (1) ChunkListManager: every primitive preserves the doubly-linked-list representation invariant and changes the sequence exactly as '
                'specified (Remove: sequence minus obj; AddAfter/AddBefore/AddTail/AddHead: obj inserted at the stated place; Swap: the two exchanged), stated for an '
@@ -53,8 +55,10 @@ EXPLANATION = ('Kernel of C02. (1) ChunkListManager: every primitive preserves t
                'arbitrary links used here, so the pool is exhaustive, not a bound. (2) the tokenizer white-space primitives consume only white space.')
 K = ['K1 ChunkListManager::{Remove, AddAfter, AddBefore, AddTail, AddHead, Swap}', 'K3 ensure_force_space / space_needed: a pair flagged PCF_FORCE_SPACE always gets at least one space', 'K3b space_text (core of one iteration): two chunks whose boundary characters are both keyword characters, or whose concatenation lexes to a punctuator of another length (except > > closing template lists, and []), get PCF_FORCE_SPACE, and a forced space yields at least one column between them', 'K2 parse_whitespace / parse_newline / parse_bs_newline / parse_off_newlines discard only white space',
      'K5 output_text (one iteration): a chunk with text is written exactly once by add_text(its own str) after output_to_column(its column); when not first on the line the column is first pushed right to cpd.column (reindent_line) so texts never overlap; chunks without text write nothing',
+     'K6 newline deletion guard: Chunk::SafeToDeleteNl() is false after a // comment and across a preprocessor boundary; convert_brace() and the class/constructor-colon pass delete or cross a newline only under that guard',
      'K4 output_to_column: the column never moves left (exactly max(old, requested)) and only blanks/tabs are issued']
-G = ['combine/brace_cleanup/newline/align passes change the list only through these primitives (static fact: m_next/m_prev are written only in ListManager.h and chunk.cpp) and do not edit m_str of non-comment chunks',
+G = ['every other pass that deletes or moves newline chunks (newlines/remove.cpp, newlines/cleanup.cpp, ...) honours Chunk::SafeToDeleteNl(): only convert_brace and the class-colon pass are under contract',
+     'combine/brace_cleanup/newline/align passes change the list only through these primitives (static fact: m_next/m_prev are written only in ListManager.h and chunk.cpp) and do not edit m_str of non-comment chunks',
      'space_text: the parts of the loop body around the sliced core (choice of next, trailing-comment adjustment, SetColumn of the following chunk) are not under contract; CharTable::IsKw1/IsKw2 and find_punctuator (the lexical tables) answer arbitrarily: whether they classify every character / punctuator pair correctly (e.g. \'/\' + \'*\') is NOT covered',
      'AddAfter requires obj to be unlinked (it does not call Remove itself): a caller-side precondition, callers not verified',
      '"every directive stays on its logical line" (newline passes) and nine-language lexing: NOT covered']
